@@ -133,10 +133,11 @@ func VH_C18_certificate_roundtrip() {
 // (so that offsets are concrete on each path), everything else is symbolic.
 //
 //verif:prop C18
-//verif:bounds 84 fixed bytes + signature fully symbolic; <= 3 blocks; per block: declared size in {exact, exact+2, 255, 2}, label length in {0,1,4}; declared chunk length = exact or exact-1 or exact+1; stream padded with 70 arbitrary bytes
+//verif:bounds 84 fixed bytes + signature fully symbolic; <= 3 blocks; per block: declared size in {exact, exact+2, 2} (2-block variant also 255), label length in {0,4} (2-block variant also 1); declared chunk length = exact or exact-1 or exact+1; stream padded with 70 arbitrary bytes
 //verif:cover decoded;reencoded;rejected
 //verif:tier thorough
-//verif:timeout 900
+//verif:timeout 1500
+//verif:maxpaths 400000
 func VH_C18_certificate_decode_encode_decode_3blocks() { c18DED(3) }
 
 //verif:prop C18
@@ -153,7 +154,12 @@ func c18DED(maxBlocks int) {
 	for i := 0; i < nb; i++ {
 		idLen := verifPick("idlen", 0, 1, 4)
 		size := idLen + 3
-		switch verifPick("declared", 0, 1, 2, 3) {
+		decl := verifPick("declared", 0, 1, 2, 3)
+		if maxBlocks > 2 {
+			// keep the 3-block variant inside the path budget
+			verifAssume(idLen != 1 && decl != 2)
+		}
+		switch decl {
 		case 1:
 			size += 2
 		case 2:
